@@ -242,6 +242,11 @@ func c16Prefill(v reflect.Value) {
 			f.SetBool(true)
 		case reflect.Struct:
 			c16Prefill(f)
+		case reflect.Pointer:
+			if f.Type().Elem().Kind() == reflect.Struct {
+				f.Set(reflect.New(f.Type().Elem()))
+				c16Prefill(f.Elem())
+			}
 		}
 	}
 }
